@@ -163,3 +163,35 @@ def sany(module: str):
         if "Semantic errors" in out or "Parse Error" in out or "Fatal" in out or pr.returncode != 0:
             raise MachineryError(f"SANY rejected {module}:\n{out[-2000:]}")
     return out
+
+
+def extract_printed(out: str, tag: str):
+    """Values printed by  PrintT(<<"tag", value>>)  - bracket matching, then the TLA value parser."""
+    from .tlaval import parse_value
+    vals = []
+    pos = 0
+    needle = '"' + tag + '"'
+    while True:
+        i = out.find(needle, pos)
+        if i < 0:
+            break
+        j = out.rfind("<<", 0, i)
+        depth, k = 0, j
+        while k < len(out):
+            if out.startswith("<<", k):
+                depth += 1
+                k += 2
+                continue
+            if out.startswith(">>", k):
+                depth -= 1
+                k += 2
+                if depth == 0:
+                    break
+                continue
+            if out[k] == '"':
+                k = out.index('"', k + 1) + 1
+                continue
+            k += 1
+        vals.append(parse_value(out[j:k])[1])
+        pos = k
+    return vals
